@@ -428,6 +428,32 @@ def c_mem_take(eng, st, fr, f, args, site):
     return [(st, v)]
 
 
+@contract(r"^(std|core)::option::Option::<T>::take$")
+def c_option_take(eng, st, fr, f, args, site):
+    """Option::take: returns the old value, leaves None."""
+    r = args[0]
+    if not isinstance(r, Ref):
+        return None
+    v = deref(eng, st, r)
+    rt = ret_ty(eng, site)
+    eng.M.write_path(st, r.loc, r.path, Enum(rt, ((0, ()),), "dflt"))
+    return [(st, v)]
+
+
+@contract(r"^(std|core)::mem::replace$|^(std|core)::option::Option::<T>::replace$")
+def c_mem_replace(eng, st, fr, f, args, site):
+    r = args[0]
+    if not isinstance(r, Ref) or len(args) < 2:
+        return None
+    v = deref(eng, st, r)
+    new = args[1]
+    if f["path"].endswith("Option::<T>::replace"):
+        rt = ret_ty(eng, site)
+        new = Enum(rt, ((1, (args[1],)),), "opt")
+    eng.M.write_path(st, r.loc, r.path, new)
+    return [(st, v)]
+
+
 def default_of(eng, ti):
     T = eng.T
     t = T.t(ti)
